@@ -52,6 +52,13 @@ Theorem C33_abort_reports_everything : forall rel_ok actors grainsInOrder,
   (forall g, In g (relocatableGrains grainsInOrder) -> geager g = true -> In (IG g) failed).
 Proof. exact aborted_accounts. Qed.
 
+(* the completion bookkeeping releases the job only after the snapshot is gone: a duplicate NodeLeft
+   handled at any point of it finds either a registered job or no snapshot; the reverse order does not *)
+Theorem C33_finish_releases_job_last :
+  forallb (fun s => negb (dup_accepted s)) (fin_prefixes (mkFin true true) [FDeleteSnapshot; FEndRelocation]) = true /\
+  existsb dup_accepted (fin_prefixes (mkFin true true) [FEndRelocation; FDeleteSnapshot]) = true.
+Proof. split; [exact finish_order_safe|exact finish_order_reversed_unsafe]. Qed.
+
 Print Assumptions C33_one_relocation_per_address.
 Print Assumptions C33_duplicate_notification_ignored.
 Print Assumptions C33_single_outcome_per_departure.
@@ -59,3 +66,4 @@ Print Assumptions C33_single_failed_event_per_departure.
 Print Assumptions C33_registered_job_unpublished.
 Print Assumptions C33_items_relocated_or_failed.
 Print Assumptions C33_abort_reports_everything.
+Print Assumptions C33_finish_releases_job_last.
